@@ -258,6 +258,13 @@ impl<'a> Gen<'a> {
         if (h.contains("method") || h.contains("function") || h.contains("ident")) && !self.names.is_empty() && self.rng.chance(3, 4) {
             return self.rng.pick(&self.names).clone();
         }
+        if h.contains("field") && self.rng.chance(1, 2) {
+            // field names of the non-fungible data of the world's resources
+            return self.rng.pick(&["counter", "fixed", "note"]).to_string();
+        }
+        if (h.contains("role") || h.contains("key")) && self.rng.chance(1, 3) {
+            return self.rng.pick(&self.w.strings).clone();
+        }
         if h.contains("blueprint") && self.rng.chance(3, 4) {
             let keys: Vec<&String> = self.w.by_bp.keys().collect();
             return (*self.rng.pick(&keys)).clone();
@@ -821,7 +828,7 @@ impl<'a> Gen<'a> {
                     elements.push(e);
                 }
                 // sets: duplicates sometimes
-                if elements.len() >= 2 && self.rng.chance(1, 12) {
+                if elements.len() >= 2 && self.rarely_invalid(12) {
                     let d = elements[0].clone();
                     elements.push(d);
                 }
@@ -883,7 +890,7 @@ impl<'a> Gen<'a> {
                     let v = self.value(s, *value_type, depth + 1, &hint2, true);
                     entries.push((k, v));
                 }
-                if !entries.is_empty() && self.rng.chance(1, 8) {
+                if !entries.is_empty() && self.rarely_invalid(8) {
                     // duplicate key
                     let k = entries[0].0.clone();
                     let v = self.value(s, *value_type, depth + 1, &hint2, true);
